@@ -93,6 +93,8 @@ func (c *clientStream) Context() context.Context {
 }
 
 func (c *clientStream) SendMsg(m any) error {
+	// the receiver reads the message after this call has returned, when the caller may already be changing it
+	m = proto.Clone(m.(proto.Message))
 	select {
 	case <-c.ctx.Done():
 		return c.closeErrLocked()
@@ -156,6 +158,8 @@ func (s *serverStream) Context() context.Context {
 
 func (s *serverStream) SendMsg(m any) error {
 	s.sendHeaderIfNeeded()
+	// the receiver reads the message after this call has returned, when the caller may already be changing it
+	m = proto.Clone(m.(proto.Message))
 	select {
 	case <-s.ctx.Done():
 		return s.closeErrLocked()
